@@ -211,8 +211,49 @@ func checkC03(res *Result) {
 	if fn := p.MustFunc(res, "C03-R1", "sideEffectActor.prepare"); fn != nil {
 		ff := computeFacts(fn)
 		strips := findCalls(E, fn, "stripHiddenRecipients")
-		res.check(len(strips) >= 1, "C03-R1", fname(fn), p.pos(fn), "prepare strips hidden recipients", "no call of stripHiddenRecipients")
+		inlineStrip := false
+		if len(strips) == 0 && !p.HasFunc("stripHiddenRecipients") {
+			// the helper written out in prepare: the strip is the clearing of bto and bcc on the
+			// activity parameter and, after them, the loop over its objects
+			var lastTop ssa.CallInstruction
+			var loopSet ssa.CallInstruction
+			for _, ci := range callsIn(fn) {
+				cc := ci.Common()
+				if cc.IsInvoke() && (cc.Method.Name() == "SetActivityStreamsBto" || cc.Method.Name() == "SetActivityStreamsBcc") && isNilConst(cc.Args[0]) {
+					if isParamNamed(unwrap(cc.Value), "activity") {
+						if lastTop == nil || dominates(lastTop, ci) {
+							lastTop = ci
+						}
+					} else if inLoop(ci) {
+						loopSet = ci
+					}
+				}
+			}
+			if lastTop != nil && loopSet != nil {
+				inlineStrip = true
+				// the strip is complete once the object loop has been left: represent it by the
+				// first instruction of each loop exit block dominated by the loop header
+				loop := loopBlocks(loopSet.Block())
+				H := loopHeader(loop)
+				for b := range loop {
+					for _, sc := range b.Succs {
+						if !loop[sc] && H != nil && H.Dominates(sc) && len(sc.Instrs) > 0 {
+							if ci, ok := firstCallIn(sc); ok {
+								_ = ci
+							}
+						}
+					}
+				}
+				strips = append(strips, lastTop)
+				stripLoopHeader[fn] = H
+				stripLoop[fn] = loop
+			}
+		}
+		res.check(len(strips) >= 1, "C03-R1", fname(fn), p.pos(fn), "prepare strips hidden recipients", "no call of stripHiddenRecipients (and no clearing of bto/bcc written out in prepare)")
 		for _, s := range strips {
+			if inlineStrip {
+				continue
+			}
 			res.check(isParamNamed(unwrap(s.Common().Args[0]), "activity"), "C03-R1", fname(fn), p.pos(s), "the strip is applied to the activity being delivered", "argument is "+valueLabel(s.Common().Args[0]))
 		}
 		for _, r := range returnsIn(fn) {
@@ -225,6 +266,22 @@ func checkC03(res *Result) {
 				if dominates(s, r) {
 					dom = true
 				}
+			}
+			if inlineStrip && dom {
+				// also past the loop over the objects
+				// (the loop itself is shown total by the stripper rule; with no 'object' there is nothing to loop over)
+				loop := stripLoop[fn]
+				getObj := false
+				for _, ci := range callsIn(fn) {
+					if ci.Common().IsInvoke() && ci.Common().Method.Name() == "GetActivityStreamsObject" && isParamNamed(unwrap(ci.Common().Value), "activity") && dominates(ci, r) {
+						for _, s := range strips {
+							if dominates(s, ci) {
+								getObj = true
+							}
+						}
+					}
+				}
+				dom = getObj && !loop[r.Block()]
 			}
 			res.check(dom, "C03-R1", fname(fn), p.pos(r), "success return of prepare only after stripHiddenRecipients", "a path returns the recipients without having stripped bto/bcc from the payload")
 		}
@@ -276,7 +333,11 @@ func checkC03(res *Result) {
 	}
 
 	// R3
-	checkStripper(res, p, "C03-R3", "stripHiddenRecipients", false)
+	if p.HasFunc("stripHiddenRecipients") {
+		checkStripper(res, p, "C03-R3", "stripHiddenRecipients", false)
+	} else {
+		checkStripperOn(res, p, "C03-R3", p.Func("sideEffectActor.prepare"), "activity", false, false)
+	}
 	// R4
 	checkStripper(res, p, "C03-R4", "clearSensitiveFields", true)
 	if fn := p.MustFunc(res, "C03-R4", "NewActivityStreamsHandlerScheme$1"); fn != nil {
@@ -321,12 +382,45 @@ func checkC03(res *Result) {
 }
 
 // checkStripper verifies the shape of stripHiddenRecipients / clearSensitiveFields.
+var stripLoopHeader = map[*ssa.Function]*ssa.BasicBlock{}
+var stripLoop = map[*ssa.Function]map[*ssa.BasicBlock]bool{}
+
+func firstCallIn(b *ssa.BasicBlock) (ssa.CallInstruction, bool) {
+	for _, ins := range b.Instrs {
+		if ci, ok := ins.(ssa.CallInstruction); ok {
+			return ci, true
+		}
+	}
+	return nil, false
+}
+
 func checkStripper(res *Result, p *Pub, rule, fnName string, recursive bool) {
 	fn := p.MustFunc(res, rule, fnName)
 	if fn == nil {
 		return
 	}
-	prm := fn.Params[0]
+	checkStripperOn(res, p, rule, fn, fn.Params[0].Name(), recursive, true)
+}
+
+// checkStripperOn applies the stripper rules to fn, the value stripped being its parameter
+// prmName. unconditional: nothing may return before the value has been examined (a helper whose
+// only job is to strip); false for a function that strips among other things.
+func checkStripperOn(res *Result, p *Pub, rule string, fn *ssa.Function, prmName string, recursive, unconditional bool) {
+	if fn == nil {
+		res.undecided(rule, "stripper", "-", "function that clears bto/bcc", "not found")
+		return
+	}
+	fnName := fname(fn)
+	var prm *ssa.Parameter
+	for _, q := range fn.Params {
+		if q.Name() == prmName {
+			prm = q
+		}
+	}
+	if prm == nil {
+		res.undecided(rule, fnName, p.pos(fn), "parameter "+prmName, "not found")
+		return
+	}
 	topLevel := map[string]int{}
 	inLoopN := map[string]int{}
 	var loopCall ssa.Instruction
@@ -371,7 +465,9 @@ func checkStripper(res *Result, p *Pub, rule, fnName string, recursive bool) {
 	if recursive {
 		res.check(recursed, rule, fnName, p.pos(fn), "clearing recurses into 'object'", "no recursive call")
 	}
-	checkStripperUnconditional(res, p, rule, fn)
+	if unconditional {
+		checkStripperUnconditional(res, p, rule, fn)
+	}
 	checkGuardCoversProperty(res, p, rule, fn)
 	if loopCall != nil {
 		tot, why := totalLoop(loopBlocks(loopCall.Block()), func(*ssa.Return) bool { return false })
